@@ -58,14 +58,26 @@ RULE = (
     "position angle) by the library's getSlantRangeVector; (optical/space/cones) boresights about the Sun, anti-Sun, "
     "galactic-centre and anti-centre axes at threshold +/- offsets; (optical/ground) sites at Sun angles about the "
     "twilight threshold x az/el/range targets; (radar/callers) Radar and AdvRadar isVisible on ground/LEO/GEO hosts "
-    "at {0.5, 1-1e-6, 1+1e-6, 2} x the radar-equation range for 3 cross-sections. non-trivial = the decision depends on "
+    "at {0.5, 1-1e-6, 1+1e-6, 2} x the radar-equation range for 3 cross-sections. NEXT TO THE VERTICAL (the azimuth of a "
+    "direction arc-seconds from the zenith is still the bearing of its horizontal POSITION offset; only where the "
+    "arcsin elevation cannot tell it from 90 deg, < 3e-8 rad, is the documented velocity heading admissible too): zenith "
+    "distance {0 exactly, 1e-9, 1e-7, 1e-6, 5e-6, 1e-5, 2e-5, 1e-4, 1e-3} rad x 8 bearings (incl. north, both sides of "
+    "the seam) x relative velocity {at rest, heading bearing+100 deg 2 km/s, bearing+180 deg 1 m/s, bearing+323 deg "
+    "0.5 km/s} for (fov) every shape x {boresight near zenith, target near zenith, both near zenith, boresight near "
+    "nadir, both near nadir} x partner offsets at {0,0.5,0.98,1.02} of the half-widths / partner zenith distances x "
+    "{same bearing, 0.98, 1.02 half-widths, opposite bearing}, verdicts also compared across the 8 bearings (rotation "
+    "about the vertical); (mask) Radar azimuth masks that contain some bearings and exclude others, ground and space "
+    "host, zenith and (space host, elevation mask widened to -90 deg through the setter) nadir; (callers) Optical on a "
+    "dark ground site, Radar and AdvRadar on ground/LEO/GEO hosts with wrapping and plain masks; (az/el) getAzimuth / "
+    "getElevation themselves at zenith and nadir. non-trivial = the decision depends on "
     "the mechanism: (los) the infinite line through the points comes within R+100 km of the geocentre; (fov) offset "
     "within 2% of an edge, or the azimuth pair straddles north, or pointing elevation >= 89 deg; (mask) azimuth "
     "within 1e-5 rad of a mask end or mask wraps through north; (sun) penumbra or within 2 solar radii of a shadow "
     "boundary; (limb/lighting/exclusion) within 1e-2 rad of the cone; (az/el) within 1e-5 rad of the seam, zenith "
     "or a quadrant boundary; (optical) the decision chain reaches the stage under examination (limb: expected VISIBLE or "
     "LIMB_OF_EARTH; cones: galactic stage or later; ground: site darkness stage); (radar) base chain passed so the "
-    "sensitivity range decides. distinct by construction (lattice points)."
+    "sensitivity range decides; (next to the vertical) the azimuth is defined (not in the either-way band) and the chain "
+    "reaches the azimuth test. distinct by construction (lattice points)."
 )
 ASSUMPTIONS = [
     "reference geometry: rational arithmetic for the segment/sphere test, atan2-based angles elsewhere (verif/oracles/visgeom.py)",
@@ -75,6 +87,11 @@ ASSUMPTIONS = [
     "rectangular field of view is defined on azimuth/elevation differences (wrapped on the circle); at the exact zenith "
     "the azimuth is the one of the velocity (Vallado Alg. 27, as documented in getAzimuth)",
     "inputs within the derived rounding band of a predicate's own threshold are classified either-way",
+    "azimuth next to the vertical: bearing of the horizontal position offset (atan2 of the SEZ components, "
+    "visgeom.azimuth_candidates); zenith distance 0 < zd < 3e-8 rad (sqrt(2 eps) = 2.1e-8: z/rho rounds to 1, the elevation "
+    "'is' 90 deg) admits the position bearing and the velocity heading, a verdict that differs between the two is "
+    "either-way; exactly at the zenith with no horizontal velocity, and exactly at the nadir, the azimuth is undefined "
+    "(either-way whenever the verdict depends on it)",
     "sensor-level chains: the Sun position is Sun.getPosition(host.julian_date_epoch) (ephemeris = another property); "
     "apparent magnitude = Cognion 2013 Eq. 1/3 with the Sun at -26.74; radar range = radar equation for a flat plate "
     "(own formulae in verif/oracles/visgeom.py); order of the exits as documented in Optical/Radar/Sensor.isVisible",
@@ -83,7 +100,7 @@ ASSUMPTIONS = [
     "slant vectors made by getSlantRangeVector use the geodetic vertical (<= 3.4e-3 rad from the radial one): that much "
     "either-way band on the limb for those cases only; geometrically built slant vectors use the radial vertical exactly",
 ]
-EXPECT_MIN_NONTRIVIAL = 50000
+EXPECT_MIN_NONTRIVIAL = 200000
 
 R = vg.R_EARTH
 DEG = math.pi / 180.0
@@ -215,12 +232,17 @@ def items(tier, seed):
         for a0 in range(0, naz, 2 if tier == "quick" else 1):
             out.append(("fov", tier, seed, si, a0, min(a0 + (2 if tier == "quick" else 1), naz)))
         out.append(("fov_zenith", tier, seed, si))
+        for mi in range(len(ZEN_MODES)):
+            out.append(("fov_near_zenith", tier, seed, si, mi))
         if _fov_shapes(tier)[si][0] == "conic":
             out.append(("fov_radial", tier, seed, si))
     masks = MASKS_Q if tier == "quick" else MASKS_T
     for mi in range(len(masks)):
         for hi in range(2):
             out.append(("mask", tier, seed, mi, hi))
+    for mi in range(len(MASKS_ZEN_Q if tier == "quick" else MASKS_ZEN_T)):
+        for hi in range(2):
+            out.append(("mask_zenith", tier, seed, mi, hi))
     out.append(("mask_range", tier, seed))
     for si in range(len(SUN_DISTANCES)):
         for ri in range(len(_sun_radii(tier))):
@@ -235,6 +257,7 @@ def items(tier, seed):
     for ei in range(len(_azel_els(tier))):
         out.append(("azel", tier, seed, ei))
     out.append(("azel_zenith", tier, seed))
+    out.append(("azel_near_pole", tier, seed))
     out.append(("wrap", tier, seed))
     out.append(("subtended", tier, seed))
     for si in range(len(_opt_sensor_radii(tier))):
@@ -246,6 +269,8 @@ def items(tier, seed):
         out.append(("optical_ground", tier, seed, k))
     for ki in range(len(RADAR_KINDS)):
         out.append(("radar_callers", tier, seed, ki))
+    for ki in range(len(ZEN_CALLER_KINDS)):
+        out.append(("zenith_callers", tier, seed, ki))
     return out
 
 
@@ -297,6 +322,19 @@ def bounds(tier, seed):
             "radar": {"kinds": RADAR_KINDS, "hosts": ["ground", "space 7000 km", "geo 42164 km"], "vcs_m2": RADAR_VCS,
                       "range_factors_of_radar_equation_range": RADAR_RANGE_FACTORS, "az_deg": [10.0, 200.0, 359.995],
                       "el_deg": [-30.0, 20.0, 80.0]},
+        },
+        "next_to_vertical": {
+            "zenith_distance_rad": _zen_zds(tier), "bearings_deg": _zen_bearings(tier, seed),
+            "velocity_heading_rel_bearing_deg_speed_kms": ["at rest"] + [list(v) for v in ZEN_VEL[1:]],
+            "partner_velocity": list(ZEN_OTHER_VEL), "pole_band_rad": vg.POLE_BAND,
+            "fov": {"shapes": "all fov shapes", "modes": ZEN_MODES, "partner_az_fractions": ZEN_FA, "partner_el_fractions": ZEN_FE,
+                    "both_near": [list(d) for d in ZEN_DTHETA], "rotation": "verdicts equal across the bearings"},
+            "mask": {"az_masks_deg": [list(m) for m in (MASKS_ZEN_Q if tier == "quick" else MASKS_ZEN_T)],
+                     "hosts": ["ground", "space 7000 km"], "zenith_ranges_km": ZEN_RANGES["ground"],
+                     "nadir_ranges_km_space_host": NADIR_RANGES, "nadir_el_mask": "[-pi/2, pi/2] through the el_mask setter"},
+            "callers": {"kinds": ZEN_CALLER_KINDS, "az_masks_deg": [list(m) for m in ZEN_CALLER_MASKS],
+                        "optical_site": "150 deg from the sub-solar point", "radar_hosts": ["ground", "space 7000 km (+nadir)", "geo"]},
+            "azel": "getAzimuth/getElevation: bearings + quadrant boundaries +/- 1e-7 deg, zenith and nadir, ranges 10 / 42000 km",
         },
         "angle_band_rad": ANG_BAND,
         "fov_band_rad": FOV_BAND,
@@ -451,7 +489,18 @@ def _fov_expect(shape, p, t):
         return ang <= half, abs(ang - half) < FOV_BAND, False, {"offset_rad": ang, "half_rad": half}
     ha, he = shape[1] * DEG / 2, shape[2] * DEG / 2
     daz, dele, raw = vg.rect_offsets(p, t)
-    either = abs(daz - ha) < FOV_BAND or abs(dele - he) < FOV_BAND
+    # next to the zenith / nadir an arcsin-based elevation loses eps / cos(el) (<= 3e-8 rad): that much more either-way band
+    # on the elevation edge for such vectors only (8 eps ~ 2e-15 rad elsewhere)
+    either = abs(daz - ha) < FOV_BAND or abs(dele - he) < FOV_BAND + vg.elevation_band(p) + vg.elevation_band(t)
+    # which azimuths a correct implementation may report (one, from the POSITION, for every direction that is not within
+    # rounding of the zenith): the verdict is asserted unless it differs between the admissible ones
+    (cand_p, free_p), (cand_t, free_t) = vg.azimuth_candidates(p), vg.azimuth_candidates(t)
+    if free_p or free_t:
+        either = either or dele <= he  # azimuth undefined: either-way unless the elevation alone excludes the target
+    elif len(cand_p) * len(cand_t) > 1:
+        verdicts = {vg.circ_dist(x, y) <= ha for x in cand_p for y in cand_t}
+        edge = any(abs(vg.circ_dist(x, y) - ha) < FOV_BAND for x in cand_p for y in cand_t)
+        either = either or ((len(verdicts) > 1 or edge) and dele <= he)
     # a direction within rounding of north has two representations (0+ and 2pi-): the pair straddles the seam if it
     # does so under either of them
     straddle = raw > math.pi
@@ -472,7 +521,10 @@ def _fov_eval(res, fov, shape, p, t, case, item, nontriv_extra=False):
         res.either_way += 1
     kind = shape[0]
     seam_fr = kind == "rect" and straddle and exp and not bool(got)
-    if seam_fr:
+    if "zenith_distance_rad" in case:  # next to the vertical: its own region (azimuth source), not the north seam
+        pole = "near_nadir" if "nadir" in case.get("mode", "") else "near_zenith"
+        sig = f"C14/fov/{kind}/{pole}/{'false_reject' if exp else 'false_accept'}"
+    elif seam_fr:
         sig = "C14/fov/rect/seam/false_reject"
     else:
         sig = f"C14/fov/{kind}/{'false_reject' if exp else 'false_accept'}"
@@ -593,6 +645,103 @@ def _run_fov_zenith(res, item):
                     _fov_rotations(res, fov, shape, p, t, base, case, item, rots, True)
 
 
+# ------------------------------------------------------------------------------------------------ next to the vertical
+# Directions a few arc-seconds (down to 1e-9 rad) from the local vertical still have a perfectly well defined azimuth: the
+# bearing of the horizontal part of the POSITION offset.  Only exactly at the zenith (within the rounding of the elevation,
+# visgeom.POLE_BAND) is the velocity heading used (documented convention).  Every azimuth-consuming predicate is therefore
+# run on zenith distance x bearing x relative velocity (zero, and headings that differ from the bearing).
+ZEN_ZD_Q = [0.0, 1e-9, 1e-7, 1e-6, 5e-6, 1e-5, 2e-5, 1e-4, 1e-3]
+ZEN_ZD_T = ZEN_ZD_Q + [1e-8, 3e-7, 3e-6, 1.5e-5, 1.6e-5, 5e-5, 1e-2]
+# (heading of the horizontal velocity relative to the bearing of the position [deg], horizontal speed [km/s]); None = at rest
+ZEN_VEL = [None, (100.0, 2.0), (180.0, 1e-3), (323.0, 0.5)]
+ZEN_OTHER_VEL = (250.0, 1.3)  # velocity of the partner direction (the one that is not varied)
+ZEN_MODES = ["near_zenith_pointing", "near_zenith_target", "both_near_zenith", "near_nadir_pointing", "both_near_nadir"]
+ZEN_FA = [-1.02, -0.98, 0.0, 0.5, 0.98, 1.02]
+ZEN_FE = [0.0, 0.5, 0.98, 1.02]
+ZEN_DTHETA = [("same_bearing", 0.0, 0.0), ("inside_edge", 0.98, 0.0), ("outside_edge", 1.02, 0.0), ("opposite", 0.0, 180.0)]
+
+
+def _zen_zds(tier):
+    return ZEN_ZD_Q if tier == "quick" else ZEN_ZD_T
+
+
+def _zen_bearings(tier, seed):
+    b = [0.0, 40.0, 90.0, 135.0, 180.0, math.fmod(200.3 + 13.7 * seed, 360.0), 270.0, 359.9]
+    if tier == "thorough":
+        b += [1e-4, 22.5, 67.5, 112.5, 157.5, 225.0, 315.0, 359.9999]
+    return b
+
+
+def _zen_velocity(bearing_deg, spec):
+    if spec is None:
+        return (0.0, 0.0, 0.0)
+    heading = (bearing_deg + spec[0]) * DEG
+    return (-spec[1] * math.cos(heading), spec[1] * math.sin(heading), 0.05)
+
+
+def _pole_vector(zd, bearing_deg, rho, vel, nadir=False):
+    """6-vector at angle ``zd`` from the zenith (nadir), horizontal offset towards ``bearing_deg``; zd == 0: exactly on
+    the vertical.  Built from sin/cos of the small angle itself (no cancellation)."""
+    if zd == 0.0:
+        pos = [0.0, 0.0, -rho if nadir else rho]
+    else:
+        b = bearing_deg * DEG
+        pos = [-rho * math.sin(zd) * math.cos(b), rho * math.sin(zd) * math.sin(b), (-rho if nadir else rho) * math.cos(zd)]
+    return pos + list(vel)
+
+
+def _run_fov_near_zenith(res, item):
+    """Boresight and/or target within {0 .. 1e-3} rad of the zenith, on 8 bearings, with relative velocities that do not
+    point along the bearing: membership must follow the position offsets (reference: visgeom, atan2 on the components)."""
+    _, tier, seed, si, mi = item
+    shape = tuple(_fov_shapes(tier)[si])
+    mode = ZEN_MODES[mi]
+    fov = _build(res, "fov/construct", _make_fov, item, shape)
+    if fov is None:
+        return
+    kind = shape[0]
+    ha = shape[1] * DEG / 2
+    he = (shape[2] if kind == "rect" else shape[1]) * DEG / 2
+    zds = _zen_zds(tier)
+    bearings = _zen_bearings(tier, seed)
+    nadir = "nadir" in mode  # a space sensor looking down: no velocity convention there, the bearing is always the position's
+    for zi, zd in enumerate(zds):
+        for vi, spec in enumerate(ZEN_VEL):
+            groups = {}  # same configuration relative to the bearing -> verdicts over the bearings (rotation about the vertical)
+            for bi, b in enumerate(bearings):
+                near = _pole_vector(zd, b, 1200.0 if bi % 2 else 36000.0, _zen_velocity(b, spec), nadir=nadir)
+                pairs = []
+                if mode.startswith("both"):
+                    spec2 = ZEN_VEL[(vi + 1) % len(ZEN_VEL)]
+                    for zd2 in zds:
+                        for label, f, extra in ZEN_DTHETA:
+                            b2 = math.fmod(b + f * ha / DEG + extra + 720.0, 360.0)
+                            other = _pole_vector(zd2, b2, 800.0, _zen_velocity(b2, spec2), nadir=nadir)
+                            pairs.append(((zd2, label), {"zd_other_rad": zd2, "other": label, "fa": f}, near, other))
+                else:
+                    for fa in ZEN_FA:
+                        for fe in ZEN_FE:
+                            az_o = math.fmod(b + fa * ha / DEG + 720.0, 360.0)
+                            el_o = (-1.0 if nadir else 1.0) * (math.pi / 2 - zd - fe * he)
+                            # (its velocity turns with the bearing too: the 8 bearings are rotations of one configuration)
+                            other = vg.sez_from_azel(az_o * DEG, el_o, 800.0 if fe else 20000.0, _zen_velocity(b, ZEN_OTHER_VEL))
+                            p, t = (other, near) if mode == "near_zenith_target" else (near, other)
+                            pairs.append(((fa, fe), {"fa": fa, "fe": fe}, p, t))
+                for gkey, extra, p, t in pairs:
+                    case = dict({"shape": list(shape), "mode": mode, "zenith_distance_rad": zd, "bearing_deg": b,
+                                 "velocity": "at_rest" if spec is None else list(spec), "rot_deg": 0.0}, **extra)
+                    got, _exp, either, _seam = _fov_eval(res, fov, shape, p, t, case, item, True)
+                    groups.setdefault(gkey, []).append((b, got, either))
+            for gkey, rows in groups.items():
+                verdicts = {g for _b, g, e in rows if not e}
+                res.case(f"fov/{kind}/rotation", {"shape": list(shape), "mode": mode, "zenith_distance_rad": zd,
+                                                   "velocity": "at_rest" if spec is None else list(spec), "group": list(gkey),
+                                                   "bearings_deg": [r[0] for r in rows]},
+                         len(verdicts) <= 1, nontrivial=len([1 for r in rows if not r[2]]) > 1,
+                         signature=f"C14/fov/{kind}/rotation_variant/{'near_nadir' if nadir else 'near_zenith'}", observed=[r[1] for r in rows], expected="equal",
+                         item=item)
+
+
 # ================================================================================================ masks (Sensor.isVisible)
 class _Host:
     """Stand-in for the SensingAgent: isVisible only reads the host ECI state."""
@@ -639,10 +788,20 @@ def _visible_expect(host, tgt, sez, az_mask, el_mask, min_range, max_range):
     if not vis:
         return False, "LINE_OF_SIGHT", either, az, el, margin
     lo, hi = el_mask[0] * DEG, el_mask[1] * DEG
-    either = either or abs(el - lo) < ANG_BAND or abs(el - hi) < ANG_BAND
+    el_band = ANG_BAND + vg.elevation_band(sez)  # arcsin-based elevation: eps / cos(el) more next to the zenith / nadir
+    # (a mask end at the zenith / nadir itself has nothing beyond it: no band there)
+    either = either or (lo > -math.pi / 2 and abs(el - lo) < el_band) or (hi < math.pi / 2 and abs(el - hi) < el_band)
     if el < lo or el > hi:
         return False, "ELEVATION_MASK", either, az, el, margin
     either = either or margin < ANG_BAND
+    # within rounding of the zenith more than one azimuth is admissible (visgeom.azimuth_candidates); everywhere else the
+    # azimuth is the bearing of the horizontal POSITION offset and the mask test is asserted
+    cands, free = vg.azimuth_candidates(sez)
+    if free:
+        either = True
+    elif len(cands) > 1:
+        tests = [vg.mask_admits(c, az_mask[0] * DEG, az_mask[1] * DEG) for c in cands]
+        either = either or len({adm for adm, _m in tests}) > 1 or any(m < ANG_BAND for _adm, m in tests)
     if admitted:
         return True, "VISIBLE", either, az, el, margin
     return False, "AZIMUTH_MASK", either, az, el, margin
@@ -659,8 +818,12 @@ def _mask_azimuths(tier, az_mask):
     return az
 
 
-def _isvisible_case(res, sub, sensor, host, az_mask, el_mask, az, el_deg, rho, hname, item, lims=(100.0, 50000.0)):
-    sez = vg.sez_from_azel(az, el_deg * DEG, rho, T_VEL)
+def _isvisible_case(res, sub, sensor, host, az_mask, el_mask, az, el_deg, rho, hname, item, lims=(100.0, 50000.0), sez=None,
+                    extra=None):
+    """``sez`` (with ``extra`` case fields) overrides the (az, el, rho) construction: directions next to the vertical."""
+    pole = sez is not None
+    if sez is None:
+        sez = vg.sez_from_azel(az, el_deg * DEG, rho, T_VEL)
     tgt = vg.add(host[:3], vg.sez_to_eci_offset(host[:3], sez)) + [1.0, -2.0, 0.5]
     if vg.norm(tgt) < R + 1e-6:
         return  # a target below the surface is outside the quantifier (positions from the surface upwards)
@@ -671,14 +834,14 @@ def _isvisible_case(res, sub, sensor, host, az_mask, el_mask, az, el_deg, rho, h
     if either:
         res.either_way += 1
     wraps = az_mask[0] > az_mask[1]
-    nontriv = exp_why in ("VISIBLE", "AZIMUTH_MASK") and (wraps or margin < 1e-5)
-    if sub != "mask/azimuth":
+    nontriv = exp_why in ("VISIBLE", "AZIMUTH_MASK") and (wraps or margin < 1e-5 or pole)
+    if sub not in ("mask/azimuth", "mask/azimuth/near_zenith", "mask/azimuth/near_nadir"):
         nontriv = exp_why not in ("VISIBLE", "AZIMUTH_MASK")
     nontriv = nontriv and not either
     res.case(
         sub,
         {"host": hname, "az_mask_deg": list(az_mask), "el_mask_deg": list(el_mask), "az_rad": az, "az_deg": az / DEG,
-         "el_deg": el_deg, "range_km": rho, "mask_wraps": wraps, "expected": exp_why},
+         "el_deg": el_deg, "range_km": rho, "mask_wraps": wraps, "expected": exp_why, **(extra or {})},
         ok, nontrivial=nontriv,
         signature=f"C14/{sub}/{'wrapping' if wraps else 'plain'}/expected_{exp_why}/got_{got_why}",
         observed=[got_vis, got_why], expected=[exp_vis, exp_why], outcome=f"{'wrap' if wraps else 'plain'}:{exp_why}", item=item,
@@ -703,6 +866,45 @@ def _run_mask(res, item):
             for el in MASK_ELS:
                 sub = "mask/azimuth" if el_mask[0] <= el <= el_mask[1] else "mask/elevation"
                 _isvisible_case(res, sub, sensor, host, az_mask, el_mask, az, el, 1500.0, hname, item)
+
+
+MASKS_ZEN_Q = [(0.0, 90.0), (350.0, 10.0), (10.0, 350.0), (180.0, 0.0), (270.0, 90.0), (45.0, 44.0)]
+MASKS_ZEN_T = MASKS_ZEN_Q + [(0.0, 359.99), (90.0, 90.0), (200.0, 100.0)]
+ZEN_RANGES = {"ground": [1500.0, 36000.0], "space": [1500.0, 36000.0]}
+NADIR_RANGES = [300.0, 550.0]  # below the 7000 km host, above the surface
+
+
+def _run_mask_zenith(res, item):
+    """Azimuth mask of a real Radar for targets within {0 .. 1e-3} rad of the zenith (and, for the space host, of the
+    nadir): every mask contains some of the 8 bearings and excludes others; relative velocity at rest / off the bearing."""
+    _, tier, seed, mi, hi = item
+    az_mask = (MASKS_ZEN_Q if tier == "quick" else MASKS_ZEN_T)[mi]
+    hname, host = _hosts(seed)[hi]
+    sides = [("near_zenith", False, (-89.9, 90.0), ZEN_RANGES[hname])]
+    if hname == "space":
+        sides.append(("near_nadir", True, (-90.0, 90.0), NADIR_RANGES))
+    for side, nadir, el_mask, ranges in sides:
+        # the configuration forbids an elevation mask that starts at -90 deg exactly: the sensor is built with -89.9 and
+        # the mask is widened through the public setter
+        sensor = _build(res, "mask/construct", _make_sensor, item, az_mask, (-89.9, 90.0), host)
+        if sensor is None:
+            continue
+        if nadir:
+            try:
+                sensor.el_mask = np.array([-math.pi / 2, math.pi / 2])
+            except Exception as exc:  # noqa: BLE001
+                res.violate("mask/construct", {"el_mask": "[-pi/2, pi/2] through the setter"}, signature="C14/mask/construct",
+                            observed=f"{type(exc).__name__}: {exc}"[:200], expected="accepted (documented range)", item=item)
+                continue
+        for zd in _zen_zds(tier):
+            for b in _zen_bearings(tier, seed):
+                for spec in ZEN_VEL:
+                    for rho in ranges:
+                        sez = _pole_vector(zd, b, rho, _zen_velocity(b, spec), nadir=nadir)
+                        extra = {"side": side, "zenith_distance_rad": zd, "bearing_deg": b,
+                                 "velocity": "at_rest" if spec is None else list(spec)}
+                        _isvisible_case(res, f"mask/azimuth/{side}", sensor, host, az_mask, el_mask, b * DEG,
+                                        -90.0 if nadir else 90.0, rho, hname, item, sez=sez, extra=extra)
 
 
 def _run_mask_range(res, item):
@@ -1000,6 +1202,37 @@ def _run_azel_zenith(res, item):
                 res.observe(gaz, gaz2)
 
 
+def _run_azel_near_pole(res, item):
+    """getAzimuth / getElevation within {0 .. 1e-3} rad of the zenith and of the nadir: the azimuth is the bearing of the
+    horizontal position offset for every zenith distance the elevation can resolve, whatever the velocity is."""
+    _, tier, seed = item
+    bearings = _zen_bearings(tier, seed)
+    for q in (0.0, 90.0, 180.0, 270.0):  # both sides of the quadrant boundaries and of the seam
+        bearings = bearings + [math.fmod(q + 1e-7 + 360.0, 360.0), math.fmod(q - 1e-7 + 360.0, 360.0)]
+    for nadir in (False, True):
+        side = "near_nadir" if nadir else "near_zenith"
+        for zd in _zen_zds(tier):
+            for b in bearings:
+                for spec in ZEN_VEL:
+                    for rho in (10.0, 42000.0):
+                        sez = _pole_vector(zd, b, rho, _zen_velocity(b, spec), nadir=nadir)
+                        gaz, gel = _f(_call(getAzimuth, _arr(sez))), _f(_call(getElevation, _arr(sez)))
+                        cands, free = vg.azimuth_candidates(sez)
+                        oel = vg.elevation(sez)
+                        case = {"side": side, "zenith_distance_rad": zd, "bearing_deg": b, "range_km": rho,
+                                "velocity": "at_rest" if spec is None else list(spec)}
+                        if free or len(cands) > 1:
+                            res.either_way += 1
+                        # atan2 of the two horizontal components as they are: 1e-12 rad (as in azel/azimuth)
+                        ok = 0.0 <= gaz <= 2 * math.pi and (free or any(vg.circ_dist(gaz, c) <= 1e-12 for c in cands))
+                        res.case("azel/azimuth", case, ok, nontrivial=not free and len(cands) == 1,
+                                 signature=f"C14/azel/azimuth/{side}", observed=gaz, expected=cands if not free else "undefined",
+                                 outcome=side, item=item)
+                        res.case("azel/elevation", case, abs(gel - oel) <= 1e-12 + vg.elevation_band(sez), nontrivial=True,
+                                 signature="C14/azel/elevation", observed=gel, expected=oel, item=item)
+                        res.observe(gaz, gel)
+
+
 def _run_wrap(res, item):
     base = [0.0, 1e-12, -1e-12, math.pi / 2, -math.pi / 2, math.pi - 1e-12, math.pi, math.pi + 1e-12, -math.pi,
             2 * math.pi - 1e-12, 2 * math.pi, 2 * math.pi + 1e-12, -2 * math.pi, 0.3, -0.3, 3.0, -3.0, 6.0, -6.0]
@@ -1096,18 +1329,18 @@ class _OptHost:
         self.sensor_time_bias_event_queue = []
 
 
-def _make_optical(vismag):
+def _make_optical(vismag, az_mask=OPT_AZ_MASK, el_mask=OPT_EL_MASK):
     cfg = OpticalConfig(
-        azimuth_range=list(OPT_AZ_MASK), elevation_range=list(OPT_EL_MASK), covariance=scen.OPT_COV, aperture_diameter=1.0,
+        azimuth_range=list(az_mask), elevation_range=list(el_mask), covariance=scen.OPT_COV, aperture_diameter=1.0,
         efficiency=0.98, slew_rate=5.0, detectable_vismag=vismag, field_of_view={"fov_shape": "conic", "cone_angle": 5.0},
     )
     return sensorFactory(cfg)
 
 
-def _make_radar(kind):
+def _make_radar(kind, az_mask=(0.0, 359.99)):
     cls = RadarConfig if kind == "radar" else AdvRadarConfig
     cfg = cls(
-        azimuth_range=[0.0, 359.99], elevation_range=[-89.9, 90.0], covariance=scen.RADAR_COV, slew_rate=3.0,
+        azimuth_range=list(az_mask), elevation_range=[-89.9, 90.0], covariance=scen.RADAR_COV, slew_rate=3.0,
         minimum_range=100.0, maximum_range=5.0e5, field_of_view={"fov_shape": "conic", "cone_angle": 10.0}, **RADAR_PARAMS,
     )
     return sensorFactory(cfg)
@@ -1130,9 +1363,10 @@ def _sun_relative_dirs(sun, seed):
     return out
 
 
-def _optical_expect(platform, host, tgt, sez, sun, vcs, refl, vismag_limit, limb_extra_band=0.0):
+def _optical_expect(platform, host, tgt, sez, sun, vcs, refl, vismag_limit, limb_extra_band=0.0, az_mask=OPT_AZ_MASK,
+                    el_mask=OPT_EL_MASK):
     """(reason name, either_way, last stage evaluated, detail) in the documented order of the exits of Optical.isVisible."""
-    vis, why, either, _az, _el, _margin = _visible_expect(host[:3], tgt, sez, OPT_AZ_MASK, OPT_EL_MASK, 0.0, math.inf)
+    vis, why, either, _az, _el, _margin = _visible_expect(host[:3], tgt, sez, az_mask, el_mask, 0.0, math.inf)
     detail = {}
     if not vis:
         return why, either, "base", detail
@@ -1353,6 +1587,83 @@ def _run_radar_callers(res, item):
                                     case, item, sig_extra=f"{kind}/{hname}/")
 
 
+ZEN_CALLER_MASKS = [(300.0, 60.0), (60.0, 300.0)]  # each contains 4 of the 8 bearings
+ZEN_CALLER_KINDS = ["optical_ground", "radar", "adv_radar"]
+
+
+def _run_zenith_callers(res, item):
+    """Optical / Radar / AdvRadar isVisible (the subclass methods) for targets next to the vertical of the host, azimuth
+    masks that contain / exclude the true bearing: the whole documented chain is evaluated in ECI + pure geometry."""
+    _, tier, seed, ki = item
+    kind = ZEN_CALLER_KINDS[ki]
+    epoch = _opt_epoch(seed)
+    sun = _sun_at(epoch)
+    el_mask = (-89.9, 90.0)
+    if kind == "optical_ground":
+        # a site 150 deg from the sub-solar point (dark), not at a pole of the geometric S/E axes
+        shat = vg.unit(sun)
+        e1, e2 = vg.perp_frame(shat)
+        site = None
+        for plane in (0.9 + 0.41 * seed, 2.4 + 0.41 * seed, 4.1 + 0.41 * seed):
+            perp = vg.add(vg.scale(e1, math.cos(plane)), vg.scale(e2, math.sin(plane)))
+            cand = vg.add(vg.scale(shat, math.cos(150.0 * DEG)), vg.scale(perp, math.sin(150.0 * DEG)))
+            if abs(cand[2]) < 0.9:
+                site = cand
+                break
+        hosts = [("ground", vg.scale(site, R + 0.1) + [0.0, 0.0, 0.0], "ground", False, [800.0, 36000.0])]
+    else:
+        hosts = []
+        for hname, host in _hosts(seed) + [("geo", vg.scale(vg.unit([-0.6, 0.7, 0.1]), 42164.0) + [2.0, 1.5, 1.0])]:
+            hosts.append((hname, host, "ground" if hname == "ground" else "space", False, [1500.0]))
+            if hname == "space":
+                hosts.append((hname, host, "space", True, [300.0]))
+    for az_mask in ZEN_CALLER_MASKS:
+        if kind == "optical_ground":
+            sensor = _build(res, "optical/construct", _make_optical, item, OPT_VISMAGS[0], az_mask, el_mask)
+        else:
+            sensor = _build(res, "radar/construct", _make_radar, item, kind, az_mask)
+        if sensor is None:
+            continue
+        for hname, host, platform, nadir, ranges in hosts:
+            sensor.host = _OptHost(host, platform, epoch)
+            mask_el = el_mask
+            if nadir:
+                sensor.el_mask = np.array([-math.pi / 2, math.pi / 2])
+                mask_el = (-90.0, 90.0)
+            else:
+                sensor.el_mask = np.array([el_mask[0] * DEG, el_mask[1] * DEG])
+            side = "near_nadir" if nadir else "near_zenith"
+            for zd in _zen_zds(tier):
+                for b in _zen_bearings(tier, seed):
+                    for spec in ZEN_VEL:
+                        for rho in ranges:
+                            sez = _pole_vector(zd, b, rho, _zen_velocity(b, spec), nadir=nadir)
+                            tgt = vg.add(host[:3], vg.sez_to_eci_offset(host[:3], sez)) + [1.0, -2.0, 0.5]
+                            case = {"kind": kind, "host": hname, "side": side, "az_mask_deg": list(az_mask),
+                                    "zenith_distance_rad": zd, "bearing_deg": b, "range_km": rho,
+                                    "velocity": "at_rest" if spec is None else list(spec), "tgt": tgt, "sez": sez}
+                            if kind == "optical_ground":
+                                why, either, _stage, detail = _optical_expect("ground", host, tgt, sez, sun, OPT_VCS, OPT_REFL,
+                                                                              OPT_VISMAGS[0], 0.0, az_mask, mask_el)
+                                case.update(detail, epoch=epoch.isoformat())
+                                args = (_arr(tgt), OPT_VCS, OPT_REFL, _arr(sez))
+                                base_passed = why not in ("ELEVATION_MASK", "LINE_OF_SIGHT", "MINIMUM_RANGE", "MAXIMUM_RANGE")
+                            else:
+                                vcs = 10.0
+                                rmax = vg.radar_max_range_km(RADAR_PARAMS["tx_power"], RADAR_PARAMS["aperture_diameter"],
+                                                             RADAR_PARAMS["efficiency"], RADAR_PARAMS["tx_frequency"],
+                                                             RADAR_PARAMS["min_detectable_power"], vcs)
+                                vis, why, either, _az, _el, _m = _visible_expect(host[:3], tgt, sez, az_mask, mask_el, 100.0, 5.0e5)
+                                if vis:
+                                    either = either or abs(vg.norm(sez) - rmax) < 1e-9 * rmax
+                                    if vg.norm(sez) > rmax:
+                                        why = "RADAR_SENSITIVITY"
+                                args = (_arr(tgt), vcs, 0.2, _arr(sez))
+                                base_passed = why in ("VISIBLE", "AZIMUTH_MASK", "RADAR_SENSITIVITY")
+                            _chain_case(res, f"callers/{side}", sensor, args, why, either, base_passed, case, item,
+                                        sig_extra=f"{kind}/{hname}/")
+
+
 _RUNNERS = {
     "constants": _run_constants,
     "los_pairs": _run_los_pairs,
@@ -1360,7 +1671,9 @@ _RUNNERS = {
     "fov": _run_fov,
     "fov_radial": _run_fov_radial,
     "fov_zenith": _run_fov_zenith,
+    "fov_near_zenith": _run_fov_near_zenith,
     "mask": _run_mask,
+    "mask_zenith": _run_mask_zenith,
     "mask_range": _run_mask_range,
     "sun": _run_sun,
     "limb": _run_limb,
@@ -1370,12 +1683,14 @@ _RUNNERS = {
     "galactic": _run_galactic,
     "azel": _run_azel,
     "azel_zenith": _run_azel_zenith,
+    "azel_near_pole": _run_azel_near_pole,
     "wrap": _run_wrap,
     "subtended": _run_subtended,
     "optical_limb": _run_optical_limb,
     "optical_cones": _run_optical_cones,
     "optical_ground": _run_optical_ground,
     "radar_callers": _run_radar_callers,
+    "zenith_callers": _run_zenith_callers,
 }
 
 
